@@ -39,6 +39,9 @@ var attCfgs = []attCfg{
 	// no certificate store at all (a signed message makes the dependency panic there: that is a
 	// configuration outside C09's domain and not judged; what is judged is that nothing is accepted)
 	{"store=nil", world.SPConf{Store: []string{}, NilStore: true}},
+	// a provider that has no key of its own (nothing to decrypt with, nothing to sign with): what
+	// it accepts must satisfy the same invariants
+	{"store[K1]/no-sp-key", world.SPConf{Store: []string{"K1"}, EncField: "-"}},
 }
 
 // attCfgList is the list of configurations a search judges its states under: the three
@@ -49,7 +52,7 @@ func attCfgList(prop string, shallow bool) []int {
 		l = append(l, 3)
 	}
 	if shallow {
-		l = append(l, 4, 5)
+		l = append(l, 4, 5, 6)
 	}
 	return l
 }
@@ -134,6 +137,7 @@ func attJudge(input string, xml []byte, cfgi int, sp *saml2.SAMLServiceProvider)
 			sp.IDPCertificateStore = nil
 		}
 		sp.SkipSignatureValidation = cfg.Conf.SkipSig
+		sp.SPKeyStore = cfg.Conf.Build().SPKeyStore
 	}
 	resp, r1 := validateResponse(sp, input)
 	// RetrieveAssertionInfo is a thin wrapper around ValidateEncodedResponse: it is run whenever
@@ -394,6 +398,20 @@ func attExplore(r *mc.Run, prop string) {
 			r.Sample(map[string]interface{}{"path": st.Path, "bytes": len(st.XML), "deflate": st.Deflate})
 		}
 	}
+	// every genuine message is judged as it is (all configurations, all lexical presentations),
+	// also those the search of this tier does not start from
+	isInit := map[string]bool{}
+	for _, s := range init {
+		isInit[s.(attState).Path] = true
+	}
+	genuineOnly := 0
+	for _, m := range w.msgs {
+		if !isInit[m.Name] && !(r.Thorough() && !(m.Name == "g1" || m.Name == "g2" || m.Name == "g5")) {
+			visit(attState{XML: m.XML, Path: m.Name}, 0)
+			genuineOnly++
+		}
+	}
+	r.Set("genuine_messages_judged_without_being_expanded", genuineOnly)
 	res := mc.BFS(init, depth, r.Expired, func(s mc.BFSState) []mc.BFSState {
 		st := s.(attState)
 		// operators that sign with the attacker's key are enabled at the first two levels only
